@@ -126,16 +126,41 @@ pub fn scratch_key(pos: &Pos, h: &ZobristHasher) -> u64 {
     key
 }
 
-/// Build an engine board directly from a position (all fields are public), with the king cache set as
-/// the FEN loader sets it and the key computed from scratch.
+/// An engine board for a position, built by the engine's own FEN loader (so that every field the engine
+/// keeps — including ones this harness does not know about — is what the engine itself would set).
+/// Falls back to direct construction when the loader refuses the FEN (reported elsewhere as C15).
 pub fn board_of_pos(pos: &Pos, h: &ZobristHasher) -> BoardState {
-    let mut board = [[Square::Boundary; 12]; 12];
+    match std::panic::catch_unwind(|| BoardState::from_fen(&pos.fen()).ok()) {
+        Ok(Some(b)) => b,
+        _ => board_direct(pos, h),
+    }
+}
+
+thread_local! {
+    static TEMPLATE: std::cell::RefCell<Option<BoardState>> = const { std::cell::RefCell::new(None) };
+}
+
+/// Build an engine board directly (all known fields are public), with the king cache set as the FEN loader
+/// sets it and the key computed from scratch. No struct literal: a field added to BoardState later keeps
+/// the value the loader gives it on an empty board. Used for bulk enumerations and for placements no FEN
+/// loader needs to accept.
+pub fn board_direct(pos: &Pos, h: &ZobristHasher) -> BoardState {
+    let mut b = TEMPLATE.with(|t| {
+        let mut t = t.borrow_mut();
+        if t.is_none() {
+            *t = Some(BoardState::from_fen("8/8/8/8/8/8/8/8 w - - 0 1").unwrap_or_else(|e| {
+                eprintln!("MACHINERY-ERROR: the FEN loader rejects the empty board: {}", e);
+                std::process::exit(2)
+            }));
+        }
+        t.as_ref().unwrap().clone()
+    });
     let mut wk = Point(0, 0);
     let mut bk = Point(0, 0);
     for sq in 0..64u8 {
         let pt = point_of_sq(sq);
         let p = pos.b[sq as usize];
-        board[pt.0][pt.1] = if p == rules::EMPTY { Square::Empty } else { Square::Full(engine_piece(p)) };
+        b.board[pt.0][pt.1] = if p == rules::EMPTY { Square::Empty } else { Square::Full(engine_piece(p)) };
         if p == rules::pc(rules::WHITE, rules::K) {
             wk = pt;
         }
@@ -143,21 +168,19 @@ pub fn board_of_pos(pos: &Pos, h: &ZobristHasher) -> BoardState {
             bk = pt;
         }
     }
-    BoardState {
-        board,
-        to_move: if pos.stm == rules::WHITE { PieceColor::White } else { PieceColor::Black },
-        pawn_double_move: pos.ep.map(point_of_sq),
-        white_king_location: wk,
-        black_king_location: bk,
-        white_king_side_castle: pos.rights & rules::WK != 0,
-        white_queen_side_castle: pos.rights & rules::WQ != 0,
-        black_king_side_castle: pos.rights & rules::BK != 0,
-        black_queen_side_castle: pos.rights & rules::BQ != 0,
-        order_heuristic: 0,
-        last_move: None,
-        pawn_promotion: None,
-        zobrist_key: scratch_key(pos, h),
-    }
+    b.to_move = if pos.stm == rules::WHITE { PieceColor::White } else { PieceColor::Black };
+    b.pawn_double_move = pos.ep.map(point_of_sq);
+    b.white_king_location = wk;
+    b.black_king_location = bk;
+    b.white_king_side_castle = pos.rights & rules::WK != 0;
+    b.white_queen_side_castle = pos.rights & rules::WQ != 0;
+    b.black_king_side_castle = pos.rights & rules::BK != 0;
+    b.black_queen_side_castle = pos.rights & rules::BQ != 0;
+    b.order_heuristic = 0;
+    b.last_move = None;
+    b.pawn_promotion = None;
+    b.zobrist_key = scratch_key(pos, h);
+    b
 }
 
 /// (from, to) of the descriptor a successor carries
